@@ -156,7 +156,9 @@ class QCircuit:
         """Return a copy of the QCircuit repeated n times"""
         o = self.copy()
         n_qc = self.copy()
-        for i in range(n - 1):
+        n_qc.gates = []
+        n_qc.gates_computed = []
+        for i in range(n):
             n_qc += o.copy()
         return n_qc
 
